@@ -97,11 +97,19 @@ def do_check(sc, prop, tier):
             raise vlib.Broken("Inbox.tla violates %s on instance %s: the model is wrong, not the code" % (r.violated, inst))
         if batch not in drivers:
             drivers[batch] = build_driver(sc, batch)[0]
-        for ring in RING_ONLY.get(inst, RING_SIZES[tier]):
+        rings = RING_ONLY.get(inst, RING_SIZES[tier])
+
+        def one_ring(ring):
             cfg = inst_config(inst, ring)
             p = vlib.run([drivers[batch], "-graph", gjson, "-config", json.dumps(cfg), "-seed", str(vlib.seed() + ring),
-                          "-explore-budget", "120s" if tier == "quick" else "600s"], timeout=1500)
-            rep = json.loads(p.stdout)
+                          "-explore-budget", "120s" if tier == "quick" else "600s"], timeout=3000)
+            return ring, cfg, json.loads(p.stdout)
+
+        # the initial ring capacities of one instance are independent runs: side by side
+        from concurrent.futures import ThreadPoolExecutor
+        with ThreadPoolExecutor(max_workers=min(len(rings), max(2, vlib.ncpu() // 3))) as ex:
+            reps = list(ex.map(one_ring, rings))
+        for ring, cfg, rep in reps:
             if rep.get("error"):
                 raise vlib.Broken("inboxgraph %s ring=%d: %s" % (inst, ring, rep["error"]))
             cov["edges_total"] += rep["edges_total"]
